@@ -141,10 +141,20 @@ func (p *jsonPathParser) _unescapeJSONString(input []byte) (string, error) {
 }
 
 func (p *jsonPathParser) syntaxErr(pos int, reason string, buffer string) error {
+	// pos counts characters (the PEG parser works on runes) while buffer is
+	// indexed by bytes: find the byte offset of the pos-th character.
+	offset, count := len(buffer), 0
+	for index := range buffer {
+		if count == pos {
+			offset = index
+			break
+		}
+		count++
+	}
 	return ErrorInvalidSyntax{
 		position: pos,
 		reason:   reason,
-		near:     buffer[pos:],
+		near:     buffer[offset:],
 	}
 }
 
